@@ -7,10 +7,10 @@ import numpy as np
 from .common import import_repo
 
 PROPERTY = "C19"
-RULE = ("every k-th case of the bounded stand-ins of C01..C09 (k chosen per module so that each contributes ~15k cases in "
+RULE = ("every k-th case of the bounded stand-ins of C01..C09 (k chosen per module so that each contributes ~8k cases in "
         "the quick tier, ~100k in the thorough tier), run with ViewBase._dtype = int64 and = int32 in the same process; the "
         "oracle verdicts must be identical. non-trivial = the underlying case is non-trivial for its own property")
-BOUNDS = {"quick": {"per_module": 15000}, "thorough": {"per_module": 100000}}
+BOUNDS = {"quick": {"per_module": 8000}, "thorough": {"per_module": 100000}}
 MODULES = ["c01", "c02", "c03", "c04", "c05", "c06", "c07", "c08", "c09"]
 _mods = {}
 
